@@ -458,13 +458,14 @@ def domain_clip(ctx):
         pe = PEval(m, f)
         pe.record_sets = False
         pe.store_filter = lambda k, fld: False
-        trs = pe.run({'obj': 1, 'node': 1, 'buffer': 1, 'obj->Type': 1, 'type->Read': 1, 'type->Write': 1, 'size': 5})
+        trs = pe.run({'obj': 1, 'node': 1, 'buffer': 1, 'obj->Type': 1, 'type->Read': 1, 'type->Write': 1, 'type->Reset': 1, 'size': 5})
         bad = None
         for t in trs:
             names = t.call_names()
-            rs = [c for c in t.calls() if c[1] == 'COObjReset']
+            # the rewind: COObjReset(obj, node, 0) or the type's Reset function called directly with offset 0
+            rs = [c for c in t.calls() if c[1] == 'COObjReset' or c[1].endswith('.Reset')]
             acc = [i for i, n in enumerate(names) if n.endswith('.Read') or n.endswith('.Write')]
-            if len(rs) != 1 or rs[0][2][2] != 0 or not acc or names.index('COObjReset') > acc[0]:
+            if len(rs) != 1 or rs[0][2][2] != 0 or not acc or names.index(rs[0][1]) > acc[0]:
                 bad = 'calls %s' % names
             ac = [c for c in t.calls() if c[1].endswith('.Read') or c[1].endswith('.Write')]
             if ac and ac[0][2][3] != 5:
